@@ -3,9 +3,16 @@
 Design level: TLC checks Resume exhaustively (download x persistence x crash x file deletion x restart) for the safe
 allocation order; the as-is order of the code (and the order after the minimal repair) and a storage without O_SYNC are
 checked too and are EXPECTED to yield counterexamples (recorded as evidence, never a verdict).
+Resume.tla writes a piece section by section (one storage write per file of the piece) and lets every section fail;
+ResumeMulti.tla puts several torrents behind ONE periodic writer / one database. Designs that forget a failed section or
+pair bitfields with records by position are model-checked too and must fail (sensitivity).
 Code level: the driver kills a real leeching session (real file storage, real bbolt database) at every enumerated crash
 point, optionally deletes data files, restarts a fresh process on the same database/data and records what it treats as
-downloaded; Trace_Resume judges every history (one TLC pass, '@@VIOL tag line')."""
+downloaded; further history families: a storage write FAULT at every section position of the pieces that span files
+(then kill / stop / start / close, then restart), a torrent MOVED INTO the session over the RPC server with the request
+cut at every position of the archive (or the target killed while the sender stalls), and sessions with SEVERAL torrents
+whose database is copied consistently at many ticks of the 2 ms periodic writer (every copy judged per torrent, restarts
+from the distinct copies). Trace_Resume judges every history (one TLC pass, '@@VIOL tag line')."""
 import itertools, json, os, random, re, shutil, subprocess, threading
 import vlib
 
@@ -18,11 +25,17 @@ def K(kind, n=0, delay=0):
     return {"kind": kind, "n": n, "delayUs": delay}
 
 
-def life(mode, kill, wrap=True, rwi=RWI, dele=None):
+def life(mode, kill, wrap=True, rwi=RWI, dele=None, fault=None):
     r = {"mode": mode, "wrap": wrap, "rwiMs": rwi, "kill": kill}
     if dele:
         r["del"] = dele
+    if fault:
+        r["fault"] = fault
     return r
+
+
+def F(p, s, mode, once=True):
+    return {"p": p, "s": s, "mode": mode, "once": once}
 
 
 def settle(dele=None, wrap=True, rwi=RWI):
@@ -162,6 +175,70 @@ def plan(ctx, geos):
                     scs[-1]["pre"] = scs[-2]["pre"] = PRES.get(pre, PRES["stale"])
                 add(lay, 16384, runs, "zero")
                 scs[-1]["pre"] = PRES.get(pre, PRES["stale"])
+    # F: storage WRITE FAULTS - the write of ONE file section of a piece fails (before the first byte / after half of the
+    #    section), at every section position of every piece that spans files (and one piece inside a file); the life ends
+    #    by SIGKILL right after the fault / after the client stopped the torrent / after a Start in the same life finished the
+    #    download / by a graceful close; then a restart. Judged by C05.db / C05.ahead: the failed piece is not on disk.
+    flays = [("multi", 16384), ("span3", 16384)] if quick else \
+            [("multi", 16384), ("span3", 16384), ("spanpad", 16384), ("multi", 5000), ("span3", 5000), ("odd", 5000), ("empties", 16384), ("zspan", 16384)]
+    for lay, unit in flays:
+        g = geos[(lay, unit)]
+        inside = [p for p in range(g["np"]) if len(g["fo"][p]) == 1][:1]
+        for p in [q for q in range(g["np"]) if len(g["fo"][q]) >= 2] + inside:
+            ns = len(g["fo"][p])
+            for sidx in range(ns):
+                if sidx < ns - 1:       # a later section of the piece would still be written
+                    v = [("half", "fstopped", 0, True), ("half", "faulted", GATE_DELAY, False), ("half", "frestart", GATE_DELAY, True), ("half", "fclose", -1, True),
+                         ("enter", "fstopped", GATE_DELAY, False), ("enter", "fclose", -1, False)]
+                    if not quick:
+                        v += [("enter", "frestart", 0, True), ("enter", "faulted", 0, True), ("half", "fstopped", GATE_DELAY, False)]
+                else:
+                    v = [("half", "fstopped", 0, True), ("enter", "frestart", GATE_DELAY, True)]
+                    if not quick:
+                        v += [("enter", "fclose", -1, False), ("half", "faulted", GATE_DELAY, False)]
+                for mode, kind, delay, once in v:
+                    runs = [life("leech", K(kind, 0, delay), rwi=RWI, fault=F(p, sidx, mode, once)), settle()]
+                    if not quick and kind in ("fstopped", "faulted") and rng.random() < 0.5:
+                        runs = runs[:1] + [life("leech", K("complete", 0, GATE_DELAY), rwi=RWI), settle()]     # the download goes on in the next life
+                    add(lay, unit, runs, "fault")
+    # M: another session MOVES a torrent into this one (POST /move-torrent on the RPC server): the request is complete, ends
+    #    early (archive without the last files), breaks at every position of the archive (source gone: end of stream inside
+    #    the announced body) or stalls there while the target is killed; then the target restarts. The record (with the
+    #    bitfield of the source) must not be there without the data.
+    for lay, unit in ([("multi", 16384), ("single", 16384)] if quick else [("multi", 16384), ("single", 16384), ("empties", 16384), ("padmid", 16384), ("multi", 5000)]):
+        g = geos[(lay, unit)]
+        nfl = [f for f in range(g["nf"]) if g["flen"][f] > 0]
+        mvs = [dict(cut="meta", after="kill", delayUs=GATE_DELAY), dict(cut="none", after="kill", delayUs=0), dict(cut="none", after="settle", delayUs=GATE_DELAY),
+               dict(cut="none", after="close")]
+        for f in nfl:
+            for pm in ((0, 500) if quick else (0, 300, 999)):
+                mvs.append(dict(cut="abort", f=f, permil=pm, after="kill", delayUs=(0 if pm else GATE_DELAY)))
+            if not quick:
+                mvs.append(dict(cut="abort", f=f, permil=600, after="close"))
+            if f in (nfl[0], nfl[-1]) or not quick:
+                mvs.append(dict(cut="hold", f=f, permil=500, after="kill", delayUs=0))
+            if f > 0:
+                mvs.append(dict(cut="short", f=f, after="settle", delayUs=GATE_DELAY))
+        for mv in mvs:
+            for have in (["full"] if quick else ["full", "part"]):
+                if have == "part" and mv["cut"] in ("meta",):
+                    continue
+                add(lay, unit, [], "move")
+                scs[-1]["move"] = dict({"f": 0, "permil": 0, "delayUs": 0, "rwiMs": RWI, "have": have}, **mv)
+    # T: SEVERAL TORRENTS in one session share the periodic writer (2 ms): a complete one, an empty one, a leeching / partial
+    #    one - same geometry, so that their bitfields have the same length; a consistent copy of the database is taken at many
+    #    ticks (= the state a kill at that tick leaves), EVERY copy is judged per torrent, and the session is restarted from the
+    #    state after the kill and from the distinct states of the copies
+    tplan = [("multi", ["full", "empty"], 0), ("multi", ["empty", "leech", "full"], 3000), ("single", ["leech", "full"], 2000)] if quick else \
+            [("multi", ["full", "empty"], 0), ("multi", ["empty", "full"], 0), ("multi", ["empty", "leech", "full"], 3000), ("single", ["leech", "full"], 2000),
+             ("single", ["full", "part", "empty"], 2000), ("odd", ["part", "full"], 1000), ("padmid", ["full", "empty", "leech"], 2000),
+             ("empties", ["leech", "leech", "full"], 3000), ("multi", ["full", "full", "empty"], 0), ("zspan", ["empty", "full"], 0)]
+    for lay, roles, delay in tplan:
+        add(lay, 16384, [], "multi")
+        scs[-1]["multi"] = {"roles": roles, "snaps": ctx.pick(40, 150), "gapUs": 3000, "restarts": ctx.pick(2, 5), "rwiMs": 2, "lives": ctx.pick(1, 2), "delayUs": delay}
+    if not quick:       # torrents of different geometry in one session
+        add("multi", 16384, [], "multi")
+        scs[-1]["multi"] = {"roles": ["full", "empty", "leech"], "layouts": ["multi", "single", "odd"], "snaps": 100, "gapUs": 3000, "restarts": 3, "rwiMs": 2, "lives": 1, "delayUs": 2000}
     # D: default storage provider, kills at jittered times while the periodic writer commits every 2 ms
     njit = ctx.pick(10, 150)
     for i in range(njit):
@@ -184,12 +261,20 @@ def plan(ctx, geos):
 
 def hist_class(sc):
     parts = []
+    if sc.get("multi"):
+        m = sc["multi"]
+        return "multi:" + "+".join(m["roles"]) + (";layouts=" + "+".join(m["layouts"]) if m.get("layouts") else "") + (";lives=%d" % m["lives"])
+    if sc.get("move"):
+        m = sc["move"]
+        return "move:have=%s;cut=%s%s;after=%s" % (m["have"], m["cut"], ("@f%d.%d" % (m["f"], m["permil"])) if m["cut"] in ("abort", "hold", "short") else "", m["after"])
     if sc.get("pre"):
         parts.append("pre=" + "+".join(sorted({p["kind"] for p in sc["pre"]})) + ("" if sc["pre"][0]["f"] == -1 else "(some)"))
     for r in sc["runs"]:
         d = r.get("del")
         if d:
             parts.append("del=all" if d == [-1] else "del=some")
+        if r.get("fault"):
+            parts.append("fault=p%d.s%d:%s%s" % (r["fault"]["p"], r["fault"]["s"], r["fault"]["mode"], "" if r["fault"]["once"] else "*"))
         parts.append("%s:%s" % (r["mode"], r["kill"]["kind"]))
     return ";".join(parts)
 
@@ -214,10 +299,15 @@ def apalache(ctx):
 
 
 ASIS = [
-    ("MC_Resume_code.cfg", "InvTrust", "the code's order (missing files created first, loaded bitfield kept while they are re-checked)"),
-    ("MC_Resume_patched.cfg", "InvTrust", "order after the minimal repair (bitfield dropped in handleAllocationDone): the window between the creation "
-                                          "of a missing file and that update remains"),
-    ("MC_Resume_nosync.cfg", "Inv", "data files not opened O_SYNC: a persisted bit can be ahead of durable data"),
+    ("MC_Resume", "MC_Resume_code.cfg", "InvTrust", "the code's order (missing files created first, loaded bitfield kept while they are re-checked)"),
+    # sensitivity of the obligations to the fault / sharing actions (designs that must fail; cheap, every tier)
+    ("MC_Resume", "MC_Resume_lasterr.cfg", "Inv", "piece write that reports only the result of its LAST file section: a failed earlier section is forgotten, "
+                                                  "the bit is set and persisted without the content"),
+    ("ResumeMulti", "MC_ResumeMulti_bypos.cfg", "Inv", "shared periodic writer that pairs bitfields with records by position over two passes of the torrent map: "
+                                                        "a record receives the bitfield of another torrent"),
+    ("MC_Resume", "MC_Resume_patched.cfg", "InvTrust", "order after the minimal repair (bitfield dropped in handleAllocationDone): the window between the creation "
+                                                       "of a missing file and that update remains"),
+    ("MC_Resume", "MC_Resume_nosync.cfg", "Inv", "data files not opened O_SYNC: a persisted bit can be ahead of durable data"),
 ]
 
 
@@ -226,12 +316,23 @@ def run(ctx):
     ctx.cov["rule"] = ("crash histories = sequences of process lives on one resume database + data directory, each ended by SIGKILL at an "
                        "enumerated point (storage write enter/half/exit per file section, bit set, bit persisted, stop, close, completion, Verify, "
                        "allocation open enter/exit, verification read, settled, jittered time) with data-file subsets deleted in between; "
+                       "a storage write fault (I/O error before the first byte / after half of the section) at every file-section position of every "
+                       "piece that spans files, followed by kill / stop / start-in-the-same-life / close and a restart; "
+                       "POST /move-torrent into the session (complete, archive ending early, stream ending at every file position, sender stalling "
+                       "while the target is killed) followed by a restart; sessions with 2-3 torrents of equal geometry (complete / empty / leeching / "
+                       "partial) whose database is copied in one read transaction at 40-150 ticks of a 2 ms periodic writer, every copy judged per "
+                       "torrent, restarts from the state after the kill and from the distinct copies; "
                        "layouts include content with all-zero data pieces over pre-existing stale / partial / truncated copies of the data files; "
                        "non-trivial = a kill at a storage/allocation/verification gate, a deletion, planted files or >= 3 lives; distinct = layout x history class x kill ordinals")
     ctx.assumptions += ["power loss is not simulated: SIGKILL keeps the page cache, so the O_SYNC flag of every data-file descriptor (/proc/self/fdinfo) is the "
                         "observable obligation for durability of a returned write (C05.osync)",
                         "the wrapping storage provider delegates to the real internal/storage/filestorage and splits every WriteAt into two halves",
-                        "bbolt commit atomicity under SIGKILL is sampled by time-jittered kills with ResumeWriteInterval = 2 ms, not enumerated"]
+                        "bbolt commit atomicity under SIGKILL is sampled by time-jittered kills with ResumeWriteInterval = 2 ms, not enumerated",
+                        "a database copy taken in a read transaction while the client runs (tx.CopyFile) stands for the file a SIGKILL at that "
+                        "tick leaves; the data files are read after the copy (content only accumulates in those lives), so a claim that is not "
+                        "backed by the files then was not backed at the tick either",
+                        "write faults are injected by the wrapping storage provider (error returned instead of / after half of the section write); "
+                        "the move request is built by the harness exactly as Torrent.Move builds it (multipart id / metadata / tar data)"]
     if getattr(ctx, "replay", None):
         # ./check C05 --replay replays/C05-...json : the recorded crash history is run again and judged
         sc = json.load(open(ctx.replay))["detail"]["scenario"]
@@ -243,12 +344,14 @@ def run(ctx):
 
     def design():
         try:
-            ctx.tlc_mc("MC_Resume", "MC_Resume.cfg", timeout=900, workers=4)
+            ctx.tlc_mc("MC_Resume", "MC_Resume.cfg", timeout=900, workers=4)            # 3 pieces x 2 files, write faults at every section
+            ctx.tlc_mc("ResumeMulti", "MC_ResumeMulti.cfg", timeout=900, workers=4)       # 3 torrents x 2 pieces, one shared writer
             if not ctx.quick():
+                ctx.tlc_mc("MC_Resume", "MC_Resume_span3.cfg", timeout=900, workers=4)    # a piece over three files (middle section)
                 ctx.tlc_mc("MC_Resume", "MC_Resume_big.cfg", timeout=2400, workers=8)
             leads = {}
-            for cfg, inv, what in (ASIS[:1] if ctx.quick() else ASIS):
-                ok, out = ctx.tlc_mc("MC_Resume", cfg, timeout=900, workers=2, expect_ok=False)
+            for module, cfg, inv, what in (ASIS[:3] if ctx.quick() else ASIS):
+                ok, out = ctx.tlc_mc(module, cfg, timeout=900, workers=2, expect_ok=False)
                 viol = re.findall(r"Invariant (\S+) is violated", out)
                 if not ok and not viol:
                     raise vlib.MachineryError("%s failed without an invariant violation:\n%s" % (cfg, out[-3000:]))
@@ -276,7 +379,7 @@ def code_level(ctx, scs=None):
     drv = ctx.build_go("c05")
     if scs is None:
         geos = {}
-        for lay in ["multi", "single", "empties", "padmid", "padalign", "odd", "zspan", "zrun", "zend", "zfile"]:
+        for lay in ["multi", "single", "empties", "padmid", "padalign", "odd", "zspan", "zrun", "zend", "zfile", "span3", "spanpad"]:
             for unit in (16384, 5000):
                 r = ctx.run_drv(drv, ["probe", "-layout", lay, "-unit", str(unit)], timeout=60)
                 geos[(lay, unit)] = json.loads(r.stdout.strip().splitlines()[-1])
@@ -286,7 +389,7 @@ def code_level(ctx, scs=None):
     vlib.write_ndjson(pp, scs)
     absf = ctx.path("abs.ndjson")
     work = ctx.path("work", "x")
-    r = ctx.run_drv(drv, ["run", "-plan", pp, "-out", absf, "-work", os.path.dirname(work), "-par", str(ctx.pick(8, 12))],
+    r = ctx.run_drv(drv, ["run", "-plan", pp, "-out", absf, "-work", os.path.dirname(work), "-par", str(ctx.pick(12, 12))],
                     timeout=ctx.pick(600, 3000))
     mach = [json.loads(x[5:]) for x in r.stdout.splitlines() if x.startswith("MACH ")]
     done = [json.loads(x[5:]) for x in r.stdout.splitlines() if x.startswith("DONE ")]
@@ -303,13 +406,31 @@ def code_level(ctx, scs=None):
             index.append([e["sid"], i + 1, []])
         index[-1][2].append(e)
     lives = kills_gate = 0
+    nfault_seen, move_answers = [0], {}
+    counted = set()
     for sid, _, es in index:
         sc = by_id[sid]
         hc = hist_class(sc)
         ords = ",".join("%s#%d" % (r["kill"]["kind"], r["kill"]["n"]) for r in sc["runs"])
         gate = any(re.match(r"(w|r|open)-", r["kill"]["kind"]) for r in sc["runs"])
-        ctx.count_case((sc["layout"], sc["unit"], hc, ords), gate or "del=" in hc or "pre=" in hc or len(sc["runs"]) >= 3)
-        lives += sum(1 for e in es if e["ev"] == "up")
+        fam = sc.get("fam")
+        if sid not in counted:      # (a session with several torrents yields one trace per torrent)
+            counted.add(sid)
+            ctx.count_case((sc["layout"], sc["unit"], hc, ords), gate or "del=" in hc or "pre=" in hc or len(sc["runs"]) >= 3 or fam in ("fault", "move", "multi"))
+        if fam == "fault":
+            ctx.oblig("C05.db(crash after a storage write fault)", sum(1 for e in es if e["ev"] == "crash"))
+            ctx.oblig("C05.ahead(settled after a storage write fault)", sum(1 for i, e in enumerate(es) if e["ev"] == "settled" and any(x["ev"] == "wend" and not x["ok"] for x in es[:i])))
+            nfault_seen[0] += sum(1 for e in es if e["ev"] == "wend" and not e["ok"])
+        if fam == "move":
+            ctx.oblig("C05.db(crash of the target of a move)", sum(1 for e in es if e["ev"] == "crash"))
+            ctx.oblig("C05.ahead(settled after a move)", sum(1 for e in es if e["ev"] == "settled"))
+            for e in es:
+                if e["ev"] == "moveres":
+                    move_answers[str(e["status"])] = move_answers.get(str(e["status"]), 0) + 1
+        if fam == "multi":
+            ctx.oblig("C05.db(database copy at a tick, several torrents)", sum(1 for e in es if e["ev"] == "dbsnap"))
+            ctx.oblig("C05.ahead(restart from a database copy)", sum(1 for i, e in enumerate(es) if e["ev"] == "settled" and any(x["ev"] == "rewind" for x in es[:i])))
+        lives += sum(1 for e in es if e["ev"] == "up") if (fam != "multi" or es[0].get("tid", 0) == 0) else 0
         kills_gate += sum(1 for e in es if e["ev"] == "crash" and re.match(r"(w|r|open)-", e["point"]))
         ctx.oblig("C05.db(crash)", sum(1 for e in es if e["ev"] == "crash"))
         ctx.oblig("C05.reopen(restart)", sum(1 for e in es if e["ev"] == "up" and not e["fresh"]))
@@ -318,6 +439,19 @@ def code_level(ctx, scs=None):
         ctx.oblig("C05.missing(settled after delete)", sum(1 for i, e in enumerate(es) if e["ev"] == "settled" and any(x["ev"] == "delete" and x["files"] for x in es[:i])))
         ctx.oblig("C05.osync(open)", sum(1 for e in es if e["ev"] in ("open", "osync")))
     ctx.extra["process_lives"] = lives
+    ctx.extra["write_faults_injected"] = nfault_seen[0]
+    ctx.extra["move_request_answers"] = move_answers
+    fams = {}
+    for sc in scs:
+        fams[sc.get("fam", "?")] = fams.get(sc.get("fam", "?"), 0) + 1
+    ctx.extra["scenarios_per_family"] = fams
+    if not getattr(ctx, "replay", None):
+        for fam, tag in (("fault", "C05.db(crash after a storage write fault)"), ("move", "C05.db(crash of the target of a move)"),
+                         ("multi", "C05.db(database copy at a tick, several torrents)")):
+            if fams.get(fam) and not ctx.obligation_counts.get(tag):
+                raise vlib.MachineryError("family %s planned but obligation %s was never evaluated" % (fam, tag))
+        if fams.get("fault") and nfault_seen[0] < 0.8 * fams["fault"]:
+            raise vlib.MachineryError("write faults planned %d, injected %d" % (fams["fault"], nfault_seen[0]))
     ctx.extra["kills_at_storage_gates"] = kills_gate
     fb = {}
     for _, _, es in index:
@@ -348,8 +482,10 @@ def judge_traces(ctx, absf, index, evs, by_id):
         ev = es[line - first]
         # which life of the scenario the event belongs to -> the history up to and including that life
         nlife = sum(1 for e in es[:line - first + 1] if e["ev"] == "up")
-        hc = hist_class({"runs": sc["runs"][:max(1, nlife)], "pre": sc.get("pre")})
-        at = ev["ev"] + (":" + ev["point"] if ev["ev"] == "crash" else "")
+        hc = hist_class({"runs": sc["runs"][:max(1, nlife)], "pre": sc.get("pre"), "multi": sc.get("multi"), "move": sc.get("move")})
+        if sc.get("multi"):
+            hc += ";torrent=%s" % es[0].get("role")
+        at = ev["ev"] + (":" + ev["point"] if ev["ev"] in ("crash", "dbsnap") else "")
         sig = "tag=%s hist=%s; at=%s" % (tag, hc, at)
         if tag.endswith(".recreated") and any(r.get("del") for r in sc["runs"]):
             # a claim on files that were created again without a completed re-check: the class is the life that found the
